@@ -387,6 +387,18 @@ def _run_point(case, ctx):
     ctx.case(["point", dg, "loading-unit"])
     if got3[0] != "ok" or not close(_f(got3[1]), _point_reference(ps, ls, queries[3][1]) * 1e-3, 1e-9):
         ctx.violation("PointIsotherm.spreading_pressure_at/loading-unit", "loading unit argument not honoured", got=got3[1], expected=_point_reference(ps, ls, queries[3][1]) * 1e-3)
+    # the desorption branch is an isotherm too (stored from high to low pressure): its integral is that of its own interpolant
+    if two:
+        pd_, ld_ = [ps[-1] * 0.5, ps[-1] * 0.8], [ls[-1] * 0.9, ls[-1] * 1.1]
+        for qd in (pd_[0] * 0.6, (pd_[0] + pd_[1]) / 2, pd_[1]):
+            gd = _call(iso.spreading_pressure_at, qd, branch="des")
+            ctx.case(["point", dg, "des-branch", round(qd / pd_[1], 2)])
+            ctx.count("point_queries", "desorption-branch")
+            exp_d = _point_reference(pd_, ld_, qd)
+            if gd[0] != "ok" or not close(_f(gd[1]), exp_d, 1e-9):
+                ctx.violation("PointIsotherm.spreading_pressure_at/desorption-branch", "the spreading pressure of the desorption branch is not the integral of that branch's interpolant", q=qd, got=gd[1], expected=exp_d,
+                              pressures=pd_, loadings=ld_)
+                break
     # the record is converted to another loading unit after it was queried (its interpolators exist): the integral is that of the
     # record as it is now
     if case["seed"] % 2 == 0:
